@@ -63,6 +63,13 @@ pub fn plan_for(c: &Value) -> Value {
                     }
                 }
             }
+            // the first leaf listed a second time one or more levels UP, at the end of the root's kids: document order
+            // reaches it first inside the subtree
+            if variant == "shared_up" && i == 1 {
+                if let Some(fl) = first_leaf {
+                    ks.push(r(num(fl)));
+                }
+            }
             let cnt = leaves(i, &kind, &kids_of) as i64 + if i == 1 { c["countOff"].as_i64().unwrap() } else { 0 };
             if indirect {
                 objects.push(json!({"n": 100 + i, "g": 0, "value": ks}));
